@@ -11,6 +11,9 @@ FnRefFlatRow     do_reference_flat's column code per row: log2 = the flat level,
                                                                   (C05_source_flat_row, C05_source_flat_row_fasta)
 FnRefBedRow      bed2probes' column code per row: gene (the file's or "-"), log2 = 0.0, spread = 0.0
                                                                   (C05_source_bed_row_spread, C05_source_bed_row_gene)
+FnRefSummarize   summarize_info per bin (per column of the matrices: translator key `columns`): biweight_location of the log2 /
+                 depth column, biweight_midvariance(column, initial=the log2 centre), the result dict
+                                                                  (C05_source_summarize, C05_source_summarize_spread)
 FnRefSexesInfer  infer_sexes' loop, one iteration (dict entry `sexes[cnarr.sample_id]` carried as an optional boolean)
                                                                               (C05_source_infer_sexes)
 FnRefSexesMerge  do_reference's loop over the antitarget calls, one iteration   (C05_source_sexes_merge_step, C05_source_sexes_inferred)
@@ -24,6 +27,8 @@ translator refuses the module, which the check reports as a broken tie):
                   KILLED ; `if fa_fname:` -> `if not fa_fname:` KILLED
   FnRefBedRow     `table["spread"] = 0.0` -> `1.0` KILLED ; `"gene" in regions.data` -> `not in` REFUSED (the keyed input is
                   gone) ; `table["log2"] = 0.0` -> `-1.0` KILLED
+  FnRefSummarize  `initial=i` dropped REFUSED (called with other arguments than its declared type) ; depth centre taken from
+                  all_logr KILLED ; "log2": depth_centers KILLED ; `zip(all_logr.T, depth_centers)` KILLED ; axis 0 -> 1 REFUSED
   FnRefSexesMerge `if t_is_xx is None` -> `is not None` KILLED ; `t_is_xx != a_is_xx` -> `==` KILLED ; the override storing
                   t_is_xx REFUSED (branches of different types B / OB)
   FnRefSexesInfer `if is_xx is not None` -> `is None` KILLED ; `if cnarr:` -> `if not cnarr:` KILLED ; `= is_xx` -> `= ~is_xx`
@@ -87,6 +92,18 @@ MODULES = {
              params=[('read_cna(fname).sample_id', 'S', 'sample_id'), ('female_samples', 'B'),
                      ('sexes[read_cna(fname).sample_id]', 'OB', 'entry')],
              ret='OB'),
+    ]),
+    # summarize_info, per bin (= per column of the two matrices, key `columns`): the log2 centre is biweight_location of the
+    # bin's column of all_logr, the depth centre that of all_depths, the spread biweight_midvariance of the log2 column with
+    # initial = THE LOG2 CENTRE; the result dict's three entries.  The two estimators are function-typed inputs.
+    'FnRefSummarize': ('cnvlib/reference.py', [
+        dict(name='summarize_info', coq='fn_summarize', py_params=['all_logr', 'all_depths'],
+             columns=['all_logr', 'all_depths'],
+             fragment=dict(first='cvg_centers = ', last='result = {'),
+             params=[('all_logr', 'LQ', 'logr_column'), ('all_depths', 'LQ', 'depth_column'),
+                     ('descriptives.biweight_location', 'F:LQ>Q', 'biweight_location'),
+                     ('descriptives.biweight_midvariance', 'F:LQ,initial=Q>Q', 'biweight_midvariance')],
+             returns=["result['log2']", "result['depth']", "result['spread']"], ret=['Q', 'Q', 'Q']),
     ]),
     # bed2probes, the column code per row: the gene name (the file's, or "-"), log2 = 0.0, spread = 0.0
     'FnRefBedRow': ('cnvlib/reference.py', [
